@@ -367,6 +367,7 @@ DEFAULT = Matcher({'PI': math.pi, 'TAU': 2 * math.pi, 'FRAC_PI_2': math.pi / 2})
 
 PARAM_ALIAS = None     # {name when the rules were written: position} for the function being analysed (rules/param_names.json), set by rules.Ctx
 PARAM_CURRENT = ()     # the function's current parameter names: an old name is only an alias if no current parameter carries it
+LIFTER = None        # d -> d with constructors distributed over phi alternatives (second fallback)
 EXPANDER = None      # set by rules.Ctx: d -> d with pure crate-local helpers and value combinators inlined (vpa/inline.py)
 
 
@@ -429,4 +430,11 @@ def find(pat, d, env=None):
             e = DEFAULT.match(pp, s, env)
             if e is not None:
                 return s, e
+        if LIFTER is not None:
+            d3 = LIFTER(d2)
+            if d3 != d2:
+                for s in subterms(d3):
+                    e = DEFAULT.match(pp, s, env)
+                    if e is not None:
+                        return s, e
     return None
